@@ -746,25 +746,34 @@ inline fp_type fast_atof (const char *p)
 	else if (*p == '+')
 		++p;
 
-	// Get digits before decimal point or exponent, if any.
-	while (isdigit(*p))
+	// Get digits before and after the decimal point as one integer and divide once: with no more than 15
+	// significant digits both operands are exact, so the quotient is the correctly rounded value.
+	// (adding digit / 10^n for every fraction digit loses a few units in the last place)
+	static const double exact_pow10[] { 1., 1e1, 1e2, 1e3, 1e4, 1e5, 1e6, 1e7, 1e8, 1e9, 1e10, 1e11, 1e12,
+		1e13, 1e14, 1e15, 1e16, 1e17, 1e18, 1e19, 1e20, 1e21, 1e22 };
+	const char *mstart(p);
+	unsigned long long mant(0);
+	unsigned digits(0), fdigits(0);
+	for (; isdigit(*p); ++p)
 	{
-		value = value * 10. + (*p - '0');
-		++p;
+		if (mant || *p != '0')
+			++digits;
+		if (digits <= 15)
+			mant = mant * 10 + (*p - '0');
 	}
-
-	// Get digits after decimal point, if any.
 	if (*p == '.')
 	{
-		++p;
-		fp_type mpow10(10.);
-		while (isdigit(*p))
+		for (++p; isdigit(*p); ++p, ++fdigits)
 		{
-			value += (*p - '0') / mpow10;
-			mpow10 *= 10.;
-			++p;
+			if (mant || *p != '0')
+				++digits;
+			if (digits <= 15)
+				mant = mant * 10 + (*p - '0');
 		}
 	}
+	if (digits > 15 || fdigits > 22)	// too long for the exact path: let the C library round it correctly
+		return static_cast<fp_type>(sign * ::strtod(mstart, nullptr));
+	value = static_cast<fp_type>(static_cast<double>(mant) / exact_pow10[fdigits]);
 
 	// Handle exponent, if any.
 	if (toupper(*p) == 'E')
